@@ -6,6 +6,7 @@
 //!
 //! Host assumptions (asserted by the harness): little-endian, 64-bit.
 
+pub mod model;
 pub mod ops;
 pub mod tree;
 pub mod values;
